@@ -478,9 +478,11 @@ func main() {
 		imp5 := "From V Require Import U64 Extracted Ledger LedgerCheck Auth."
 		wa := &sim.CaseWriter{OutDir: *outDir, Name: "c05tx", Imports: imp5, CaseType: "auth_case", MFun: "auth_mismatches", VFun: "auth_violations", PerShard: 25}
 		wb := &sim.CaseWriter{OutDir: *outDir, Name: "c05blk", Imports: imp5, CaseType: "ablk_case", MFun: "ablk_mismatches", VFun: "ablk_violations", PerShard: 100}
+		wBA = &sim.CaseWriter{OutDir: *outDir, Name: "c05ba", Imports: "From V Require Import BlockAuth.", CaseType: "ba_case", MFun: "ba_mismatches", VFun: "ba_violations", PerShard: 100}
 		authMode(r.Fork(), *nStates, *perState, wa, wb)
 		wa.Close(st)
 		wb.Close(st)
+		wBA.Close(st)
 		fmt.Printf("authorization: %d cases; variants %v outcomes %v skipped %v\n", st.Cases, st.TxCases, st.TxOutcome, st.Skipped)
 		return
 	}
